@@ -243,6 +243,13 @@ class Built:
       finally:
         log.add('end', pid, inv)
 
+    if beh.get('noarg'):
+      # a phase function without the positional `test` argument: openhtf
+      # passes it neither a TestApi nor the state
+      inner = body
+
+      def body(**plug_args):  # pylint: disable=function-redefined
+        return inner(None, **plug_args)
     body.__name__ = pid
     body.__qualname__ = pid
     ph = pd.PhaseDescriptor.wrap_or_copy(body)
@@ -281,7 +288,8 @@ class Built:
       log.add('diag', pid, di)
       if _spec == 'RAISE':
         raise RuntimeError('diag boom')
-      return [H.Diagnosis(R[d], 'x', is_failure=bool(f)) for d, f in _spec]
+      return [H.Diagnosis(R[e[0]], 'x', is_failure=bool(e[1]),
+                          is_internal=bool(e[2:] and e[2])) for e in _spec]
 
     return diag
 
@@ -608,9 +616,13 @@ class Model:
           if res not in ('EXC', 'STOP', 'TIMEOUT'):
             res, exc = 'EXC', 'RuntimeError'
           continue
-        for name, isf in spec:
+        for ent in spec:
+          name, isf = ent[0], ent[1]
           self.diags.add(name)
-          self.diagnoses.append((name, bool(isf)))
+          if not (ent[2:] and ent[2]):
+            # an internal diagnosis is in the store and on the phase record
+            # but is not serialized into the test record's diagnoses
+            self.diagnoses.append((name, bool(isf)))
           if isf:
             dfail.append(name)
             self.failure_diag = True
@@ -745,7 +757,8 @@ def leaf_alphabet(which):
     conds = [['ANY', ['D1']], ['NOT_ANY', ['D1']]]
   else:
     phases = [{'r': 'C'}, {'r': 'F'}, {'r': 'U'}, {'r': 'X'},
-              {'r': 'C', 'ds': [[['D1', 0]]]}, {'r': 'C', 'ds': [[['D2', 1]]]}]
+              {'r': 'C', 'ds': [[['D1', 0]]]}, {'r': 'C', 'ds': [[['D2', 1]]]},
+              {'r': 'C', 'ds': [[['D1', 0, 1]]]}]
     cps = [['last', 'U'], [['ANY', ['D1']], 'S']]
     conds = [['ANY', ['D1']]]
   return phases, cps, conds
@@ -848,8 +861,8 @@ def gen_phase(rng, ids, rich=True):
     beh['m'] = rng.choice(['pass', 'fail', 'unset', 'marginal'])
   if rng.random() < .35:
     n = rng.choice([1, 1, 1, 2])
-    beh['ds'] = [rng.choice([[['D1', 0]], [['D2', 1]],
-                             [['D1', 0], ['D3', 0]], 'RAISE', []])
+    beh['ds'] = [rng.choice([[['D1', 0]], [['D2', 1]], [['D1', 0, 1]],
+                             [['D1', 0], ['D3', 0, 1]], 'RAISE', []])
                  for _ in range(n)]
   if rich:
     if rng.random() < .1:
